@@ -126,6 +126,13 @@ def r1(ctx):
     ctx.ob("R1", "environment/workdir are applied in a `sh -c` subshell", has_sub, func=f, node=rets[0], instance="_build_shell_command:subshell")
     # both environment and workdir actually rendered inside
     src = unparse(f.node)
+    # ... also when the assembly of the subshell script was extracted into a module-level helper (one level)
+    for c in f.calls():
+        if isinstance(c.func, ast.Name):
+            for q in p.resolve_call(f, c, fanout=False):
+                h = p.functions.get(q)
+                if h is not None and h.cls is None and h.file == f.file and h is not f and any(isinstance(a, ast.Name) and a.id in ("workdir", "environment") for a in list(c.args) + [k.value for k in c.keywords]):
+                    src += "\n" + unparse(h.node)
     ctx.ob("R1", "_build_shell_command renders workdir and every environment item",
            "shlex.quote(workdir)" in src and "environment.items()" in src, func=f, node=f.node, instance="_build_shell_command:present")
     # template renderer
